@@ -29,7 +29,7 @@ CHECKS = {
     "C13": ("model_checking",
             "stateless model checking of real threads under a controlled (baton-passing) scheduler: every interleaving at the resolver's and the cache's synchronisation points up to a preemption bound (iterative context bounding), executed in worker processes, compared with sequential answers",
             "2-3 real threads run 1-3 load calls each on one open document (shared resolver or one each; no caches or instrumented compute-once caches); every schedule with <=2 (quick) / <=3 (thorough) preemptions for 2 threads and <=1 / <=2 for 3 threads is executed; oracle: every answer equals the call run alone, no panic, no deadlock (no enabled thread while some are blocked), no process abort, resolver usable afterwards; failing schedules are replayed and must reproduce; replay divergence is a machinery error.",
-            "Trusted: scheduling points suffice because the only shared mutable state is the guard mutex (no scheduling point inside its critical sections) and the caches; VerifCache is bound to globalcache's SyncCache::get by source hash and by sequential trace comparison (plus a non-deciding free-running run in thorough). once_cell in Lazy::load is not covered.",
+            "Trusted: scheduling points suffice because the only shared mutable state is the guard stack behind its mutex (under the feature a schedulable mutex with a point inside each critical section, so lock/try_lock contention is explored) and the caches; VerifCache is bound to globalcache's SyncCache::get by source hash and by sequential trace comparison (plus a non-deciding free-running run in thorough). once_cell in Lazy::load is not covered.",
             "§5 C13"),
     "C12": ("model_checking",
             "exhaustive enumeration of read-call sequences (all sequences up to length 3 over a 40-call alphabet, all permutations of the calls per object) x 5 cache configurations on real documents, each answer compared with the same call alone on a fresh uncached document",
